@@ -88,6 +88,9 @@ Gen/Shared_gen.vos Gen/Shared_gen.vok Gen/Shared_gen.required_vos: Gen/Shared_ge
 Model/SharedCheck.vo Model/SharedCheck.glob Model/SharedCheck.v.beautified Model/SharedCheck.required_vo: Model/SharedCheck.v Model/Shared.vo Gen/Shared_gen.vo
 Model/SharedCheck.vio: Model/SharedCheck.v Model/Shared.vio Gen/Shared_gen.vio
 Model/SharedCheck.vos Model/SharedCheck.vok Model/SharedCheck.required_vos: Model/SharedCheck.v Model/Shared.vos Gen/Shared_gen.vos
+Model/Canon.vo Model/Canon.glob Model/Canon.v.beautified Model/Canon.required_vo: Model/Canon.v Model/Term.vo
+Model/Canon.vio: Model/Canon.v Model/Term.vio
+Model/Canon.vos Model/Canon.vok Model/Canon.required_vos: Model/Canon.v Model/Term.vos
 Model/Loader.vo Model/Loader.glob Model/Loader.v.beautified Model/Loader.required_vo: Model/Loader.v 
 Model/Loader.vio: Model/Loader.v 
 Model/Loader.vos Model/Loader.vok Model/Loader.required_vos: Model/Loader.v 
@@ -217,3 +220,9 @@ Proofs/NoPanic.vos Proofs/NoPanic.vok Proofs/NoPanic.required_vos: Proofs/NoPani
 Props/C05.vo Props/C05.glob Props/C05.v.beautified Props/C05.required_vo: Props/C05.v Model/GoInt.vo Model/F64.vo Model/Num.vo Gen/Arith_gen.vo Model/Eval.vo Model/Term.vo Model/Machine.vo Proofs/ArithInt.vo Proofs/NoPanic.vo
 Props/C05.vio: Props/C05.v Model/GoInt.vio Model/F64.vio Model/Num.vio Gen/Arith_gen.vio Model/Eval.vio Model/Term.vio Model/Machine.vio Proofs/ArithInt.vio Proofs/NoPanic.vio
 Props/C05.vos Props/C05.vok Props/C05.required_vos: Props/C05.v Model/GoInt.vos Model/F64.vos Model/Num.vos Gen/Arith_gen.vos Model/Eval.vos Model/Term.vos Model/Machine.vos Proofs/ArithInt.vos Proofs/NoPanic.vos
+Proofs/Canon.vo Proofs/Canon.glob Proofs/Canon.v.beautified Proofs/Canon.required_vo: Proofs/Canon.v Model/Term.vo Model/Canon.vo
+Proofs/Canon.vio: Proofs/Canon.v Model/Term.vio Model/Canon.vio
+Proofs/Canon.vos Proofs/Canon.vok Proofs/Canon.required_vos: Proofs/Canon.v Model/Term.vos Model/Canon.vos
+Props/C06.vo Props/C06.glob Props/C06.v.beautified Props/C06.required_vo: Props/C06.v Model/Term.vo Model/Canon.vo Proofs/Canon.vo
+Props/C06.vio: Props/C06.v Model/Term.vio Model/Canon.vio Proofs/Canon.vio
+Props/C06.vos Props/C06.vok Props/C06.required_vos: Props/C06.v Model/Term.vos Model/Canon.vos Proofs/Canon.vos
